@@ -27,6 +27,11 @@ class Crate:
         self.consts = {c['path']: c for c in doc.get('consts', [])}
         self.impls = doc.get('impls', [])
         self.adts = {a['path']: a for a in doc.get('adts', [])}
+        self.raw_bodies = self.bodies
+        self.normal = None
+        if not os.environ.get('ZL_NO_INLINE'):
+            import inline
+            inline.apply_global(self)
 
     def find(self, sub, exact=False):
         return [b for b in self.bodies if (b.path == sub if exact else sub in b.path)]
@@ -168,6 +173,24 @@ class Body:
         self._pdom = None
         self._cd = None
         self._defs = None
+        self._reach_cache = {}
+        self._annotate()
+
+    def _annotate(self):
+        """every place dict gets '@' = the block it occurs in (the use site, for reaching-definition lookups)"""
+        def walk(x, b):
+            if isinstance(x, dict):
+                if 'l' in x and 's' in x and '@' not in x:
+                    x['@'] = b
+                for v in x.values():
+                    if isinstance(v, (dict, list)):
+                        walk(v, b)
+            elif isinstance(x, list):
+                for y in x:
+                    walk(y, b)
+        for b, bl in enumerate(self.blocks):
+            walk(bl['stmts'], b)
+            walk(bl['term'], b)
 
     # ---- naming
     def local_name(self, i):
@@ -424,6 +447,43 @@ class Body:
         ds = [x for x in self.defs().get(l, []) if x[2] != 'partial']
         return ds[0] if len(ds) == 1 else None
 
+    def _reach_avoiding(self, start, avoid):
+        k = (start, avoid)
+        r = self._reach_cache.get(k)
+        if r is None:
+            r = self.reachable(start, avoid=avoid)
+            self._reach_cache[k] = r
+        return r
+
+    def single_def_at(self, l, at=None):
+        """the one definition of local l that reaches block `at`: the only definition, or - when several exist - the only one from which
+        `at` can be reached without passing another definition of l (definitions in unreachable blocks do not count)"""
+        ds = [x for x in self.defs().get(l, []) if x[2] != 'partial']
+        if len(ds) == 1:
+            return ds[0]
+        if at is None or not ds or len(ds) > 12:
+            return None
+        live = self.reachable()
+        ds = [d for d in ds if d[0] in live]
+        if len(ds) == 1:
+            return ds[0]
+        blocks = frozenset(d[0] for d in ds)
+        if len(blocks) != len(ds):
+            return None                     # two definitions in one block: order matters, give up
+        reaching = []
+        for d in ds:
+            others = frozenset(blocks - {d[0]})
+            if d[0] == at:
+                reaching.append(d)
+                continue
+            r = set()
+            for sx in self.succ(d[0]):
+                if sx not in others:
+                    r |= self._reach_avoiding(sx, others)
+            if at in r:
+                reaching.append(d)
+        return reaching[0] if len(reaching) == 1 else None
+
     # ---- value tracing: follow copies/moves/refs/casts back to an origin description
     def trace(self, op, depth=12):
         """Trace an operand back through trivial assignments.
@@ -447,6 +507,12 @@ class Body:
                     rv = sd[3]['rv']
                     return {'kind': 'bin', 'op': rv['op'][:-len('WithOverflow')], 'a': rv['a'], 'b': rv['b'],
                             'block': sd[0], 'stmt': sd[1], 'checked': True}
+            if depth > 0 and not (1 <= p['l'] <= self.arg_count):
+                q = self._peel(p)
+                if q is not None:
+                    if q.get('k') in ('const', 'copy', 'move'):
+                        return self.trace(q, depth - 1)
+                    return self.trace_place(q, depth - 1)
             fl = place_fields(p)
             return {'kind': 'place', 'place': p, 'fields': fl, 'base': p['l']}
         l = p['l']
@@ -454,7 +520,7 @@ class Body:
             return {'kind': 'local', 'l': l}
         if 1 <= l <= self.arg_count:
             return {'kind': 'arg', 'l': l, 'name': self.local_name(l)}
-        sd = self.single_def(l)
+        sd = self.single_def_at(l, p.get('@'))
         if sd is None:
             return {'kind': 'local', 'l': l, 'name': self.local_name(l), 'ndefs': len(self.defs().get(l, []))}
         b, i, kind, payload = sd
@@ -486,6 +552,65 @@ class Body:
         if k == 'aggr':
             return {'kind': 'aggr', 'rv': rv, 'block': b}
         return {'kind': 'rvalue', 'rv': rv, 'block': b}
+
+    def _peel(self, p):
+        """one step of scalar replacement for a projected place `_x.proj...` whose base has one reaching definition:
+        copy of another place -> that place with the projections appended; aggregate -> the operand stored in the projected field;
+        `Try::branch(r)` -> Continue/Break payloads are the Ok/Some / Err payloads of r; `&place` then `*` -> the place.
+        Returns an operand / place dict or None."""
+        pr = p['p']
+        at = p.get('@')
+        if pr[0] == '*':
+            return None             # through a reference: the referent is what matters (deref_origin), not the pointer's history
+        sd = self.single_def_at(p['l'], at)
+        if sd is None:
+            return None
+        b, i, kind, payload = sd
+
+        def mk(base, rest):
+            q = {'l': base['l'], 'p': (list(base.get('p') or []) + list(rest)) or None, 's': base.get('s', '') + '~', 'ty': ''}
+            q['@'] = b
+            return q
+        if kind == 'call':
+            c = payload['callee']
+            if c.get('name') == 'branch' and 'Try' in ((c.get('def') or '') + (c.get('trait') or '')) and payload.get('args'):
+                a = op_place(payload['args'][0])
+                if a and isinstance(pr[0], dict) and pr[0].get('dc') in ('Continue', 'Break') and len(pr) >= 2:
+                    ty = a.get('ty') or ''
+                    if pr[0]['dc'] == 'Continue':
+                        dc = 'Ok' if 'Result' in ty else 'Some'
+                        first = dict(pr[0], dc=dc)
+                        return mk(a, [first] + list(pr[1:]))
+            return None
+        if kind != 'assign':
+            return None
+        rv = payload['rv']
+        k = rv['k']
+        if k in ('use', 'cast'):
+            q = op_place(rv['op'])
+            if q is None:
+                return None
+            return mk(q, pr)
+        if k == 'aggr':
+            ops = rv.get('ops') or []
+            rest = list(pr)
+            if rv.get('kind') == 'adt' and rv.get('variant') and rest and isinstance(rest[0], dict) and 'dc' in rest[0]:
+                if rest[0]['dc'] != rv['variant']:
+                    return None
+                rest = rest[1:]
+            if not rest or not isinstance(rest[0], dict) or 'f' not in rest[0]:
+                return None
+            fi = rest[0]['f']
+            if not isinstance(fi, int) or fi >= len(ops):
+                return None
+            op = ops[fi]
+            if len(rest) == 1:
+                return op
+            q = op_place(op)
+            if q is None:
+                return None
+            return mk(q, rest[1:])
+        return None
 
     def deref_origin(self, p, depth=12):
         """For a place whose base local is a reference temp (`(*_5).f`), rewrite the base through
